@@ -12,6 +12,7 @@ VOCAB = ["", "a b", "\"q\"", "--x=1", "é", "$HOME", "*", "a\nb", "'s'", "\\n", 
 KINDS = [None, "nocmd", "args"]
 
 
+MNAME_SLASH = {"base": "base", "m1": "ci/linux", "m2": "os/v1/x"}   # argmap names with a path separator: <argmap dir>/ci/linux.json (desc["dotted"] == "slash")
 MNAME = {"base": "base", "m1": "v1.2", "m2": "ci.linux"}   # argmap names with a dot (desc["dotted"])
 
 
@@ -77,6 +78,7 @@ def build(desc, s):
                     os.makedirs(r.path(os.path.join(t, "monorail/cmd", c)), exist_ok=True)   # and a directory named exactly like the command
             expect_exe[(t, c)] = p
     expect_args = {}
+    MNAME = MNAME_SLASH if desc.get("dotted") == "slash" else globals()["MNAME"]
     shared = desc["argdir"] == "shared"
     for ti, t in enumerate(names):
         adir = ("conf/%s-argmaps" % t) if desc["argdir"] == "custom" else "conf/shared-argmaps" if shared else os.path.join(t, "monorail/argmap")
@@ -90,7 +92,7 @@ def build(desc, s):
             kind = desc["files"][0 if shared else ti][m]
             if desc.get("dotted") and m != "base":
                 # decoys named after the part before the dot (v1.json next to v1.2.json, ci.json next to ci.linux.json)
-                r.write(os.path.join(adir, MNAME[m].split(".")[0] + ".json"), json.dumps({c: ["decoy-" + m] for c in cmds}))
+                r.write(os.path.join(adir, (MNAME[m].rsplit("/", 1)[-1] if desc["dotted"] == "slash" else MNAME[m].split(".")[0]) + ".json"), json.dumps({c: ["decoy-" + m] for c in cmds}))
             if kind is None:
                 continue
             if kind == "nocmd":
@@ -142,7 +144,8 @@ def task(desc):
         elif desc.get("select") == "explicit-twice":
             args += ["-t"] + names + names[:1]   # the first target named twice
         if desc["argmaps_opt"]:
-            args += ["-m"] + [MNAME.get(m, m) if desc.get("dotted") else m for m in desc["argmaps_opt"]]
+            mn = MNAME_SLASH if desc.get("dotted") == "slash" else MNAME
+            args += ["-m"] + [mn.get(m, m) if desc.get("dotted") else m for m in desc["argmaps_opt"]]
         if desc["no_base"]:
             args += ["--no-base-argmaps"]
         ctx = desc.get("context") or []
@@ -296,6 +299,9 @@ def scenarios(tier):
             files = [{"base": "args", "m1": "args", "m2": "args"}, {"base": None, "m1": "args", "m2": None}]
             out.append({"targets": 2, "commands": ["build"], "files": files, "argmaps_opt": o, "no_base": False,
                         "args": None, "argdir": argdir, "cmdsrc": "default", "vocab": plain, "dotted": True})
+            # (2m) argmap names with a path separator (ci/linux -> <argmap dir>/ci/linux.json), decoy linux.json beside the directory
+            out.append({"targets": 2, "commands": ["build"], "files": files, "argmaps_opt": o, "no_base": False,
+                        "args": None, "argdir": argdir, "cmdsrc": "default", "vocab": plain, "dotted": "slash"})
     # (2i) commands reached through -s <sequence> (alone, or followed by -c): same argv as with -c
     for via in ("sequence", "sequence+c"):
         for cmdsrc in ("default", "defpath"):
@@ -360,7 +366,7 @@ def run(prop, tier):
     agg = {"evaluations": sum(r["evaluations"] for r in results), "distinct_nontrivial": sum(r["nontrivial"] for r in results),
            "violations": [v for r in results for v in r["violations"]], "samples": [r["sample"] for r in results[:: max(1, len(results) // 4)]][:5],
            "exhaustive": True,
-           "rule": "(1) per-target presence lattice {absent, without the command, with args}^3 for base/m1/m2 x --argmaps in {-, m1, m2, m1 m2, m2 m1, m1 missing} x --no-base-argmaps, two targets with complementary files; (2) argmap directory {default, custom} x command source {default dir, custom commands.path, explicit definition path with a decoy in the default dir, empty definition} x argmap orders x 1-2 commands x 1-3 targets x declaration order {alphabetical, reversed, rotated}; (2b) dependency chains selected by -t <last> --deps, -t <all> --deps and -t <all>; (3) --args values from the argument alphabet with one command and one explicit target; (4) every alphabet string in every slot class and all combinations of a 2-string vocabulary over the four slots; each case = one real run with traced children; oracle: argv[1..] == base ++ argmaps in order ++ args verbatim, cwd == target directory, argv[0] == resolved executable; non-trivial = runs whose expected argv is non-empty"}
+           "rule": "(1) per-target presence lattice {absent, without the command, with args}^3 for base/m1/m2 x --argmaps in {-, m1, m2, m1 m2, m2 m1, m1 missing} x --no-base-argmaps, two targets with complementary files; (2) argmap directory {default, custom} x command source {default dir, custom commands.path, explicit definition path with a decoy in the default dir, empty definition} x argmap orders x 1-2 commands x 1-3 targets x declaration order {alphabetical, reversed, rotated}; (2m) argmap names containing a path separator (ci/linux, os/v1/x) under the default and a custom argmap directory; (2b) dependency chains selected by -t <last> --deps, -t <all> --deps and -t <all>; (3) --args values from the argument alphabet with one command and one explicit target; (4) every alphabet string in every slot class and all combinations of a 2-string vocabulary over the four slots; each case = one real run with traced children; oracle: argv[1..] == base ++ argmaps in order ++ args verbatim, cwd == target directory, argv[0] == resolved executable; non-trivial = runs whose expected argv is non-empty"}
     by = {}
     for v in agg["violations"]:
         by[v["sig"]] = by.get(v["sig"], 0) + 1
